@@ -22,6 +22,7 @@ TRANSLATORS = [
     ('gen_state', ['StateInv.v']),
     ('gen_split_regex', ['SplitRx.v']),
     ('gen_options', ['OptTab.v']),
+    ('gen_callgraph', ['CallGraph.v']),
 ]
 
 
